@@ -247,7 +247,21 @@ def parse_dfs(repo, consts):
         else:
             strs[a["id"]] = {"id": a["id"], "cap": consts[a["cap"]], "cap_name": a["cap"], "len_bits": int(a["len_bits"])}
     mods = re.findall(r"pub\s+mod\s+(\w+)\s*;", src)
-    return dfs, order, strs, mods
+    # feature gates of the hand-written df modules and their `use super::…` dependencies
+    df_gates = {}
+    for m in re.finditer(r"((?:#\[cfg\([^\]]*\)\]\s*)*)pub\s+mod\s+(\w+)\s*;", src):
+        feats = re.findall(r'feature\s*=\s*"(\w+)"', m.group(1))
+        if feats:
+            df_gates[m.group(2)] = feats
+    df_uses = {}
+    ddir = os.path.join(repo, "src/df/dfs")
+    if os.path.isdir(ddir):
+        for fn in sorted(os.listdir(ddir)):
+            if fn.endswith(".rs"):
+                fsrc = strip_comments(open(os.path.join(ddir, fn)).read())
+                deps = re.findall(r"use\s+super::(\w+)::", fsrc) + re.findall(r"use\s+crate::df::dfs::(df_msg\w+)::", fsrc)
+                df_uses[fn[:-3]] = sorted(set(deps))
+    return dfs, order, strs, mods, df_gates, df_uses
 
 
 def fields_list(s):
@@ -400,7 +414,7 @@ def std_paths(repo):
 
 def build_schema(repo):
     consts, gates, includes = parse_mod(repo)
-    dfs, df_order, strs, df_mods = parse_dfs(repo, consts)
+    dfs, df_order, strs, df_mods, df_gates, df_uses = parse_dfs(repo, consts)
     frags, uses = parse_msgs(repo, consts)
     schema = {
         "consts": consts, "gates": gates, "includes": includes, "dfs": dfs, "df_order": df_order, "strs": strs,
@@ -431,6 +445,18 @@ def build_schema(repo):
     for row in schema["dispatch"]:
         if row["module"] not in frags:
             raise TranslateError(f"message! row refers to unknown module {row['module']}")
+    # module graph for C19: gates and uses of the hand-written df modules, and the dependence of every message
+    # module on the hand-written df modules its layout refers to
+    for m, g in df_gates.items():
+        schema["gates"].setdefault(m, g)
+    for m, u in df_uses.items():
+        schema["uses"][m] = sorted(set(schema["uses"].get(m, []) + u))
+    for f in frags.values():
+        for r in f["refs"]:
+            if r in special:
+                schema["uses"].setdefault(f["file"], [])
+                if r not in schema["uses"][f["file"]]:
+                    schema["uses"][f["file"]].append(r)
     return schema
 
 
